@@ -93,7 +93,7 @@ class Ctx:
 
     def entry(self, qualname, **kw):
         """Abstractly interpret `qualname` from symbolic arguments (cached). Returns the Interp (with .result)."""
-        key = (qualname, tuple(sorted(kw)))
+        key = (qualname, repr(sorted((k, repr(v)) for k, v in kw.items())))
         if key not in self._entries:
             it = make_interp(self.p)
             res, st = it.run_entry(qualname, **kw)
